@@ -307,7 +307,14 @@ def make_programs(prop, profile_cfgs, n, root, label=""):
         name, cfg = profile_cfgs[i % len(profile_cfgs)]
         r = rng(prop, name, i)
         ss = gen.generate(r, cfg)
-        progs.append(Program(i, ss, root, f"{name}#{i}"))
+        port = None
+        if ss.wsdl is not None:
+            from .wsdl_driver import free_port
+            port = free_port()
+            ss.wsdl.location = f"http://127.0.0.1:{port}/soap/{name}/{i}"
+        p = Program(i, ss, root, f"{name}#{i}")
+        p.port = port
+        progs.append(p)
     return progs
 
 
@@ -481,8 +488,40 @@ def core_cfgs(q):
     ]
 
 
+def wsdl_cfgs(q):
+    return [
+        # attributes of named simple types are left out of the client profiles: yaserde can not read a struct-typed attribute
+        # back (C04 counts that under its reference-struct exclusion), and here it would fail every response
+        ("wsdl", gen.cfg_with(files=(1, 3), wsdl=True, quarantine=q, complex_per_file=(0, 2), simple_per_file=(0, 2), elements_per_file=(0, 1),
+                              attr_named_simple=False)),
+        ("wsdl-keywords", gen.cfg_with(files=(1, 2), wsdl=True, quarantine=q, keyword_rate=0.3, complex_per_file=(0, 2), simple_per_file=(0, 2),
+                                       elements_per_file=(0, 1), attr_named_simple=False)),
+        ("wsdl-headers", gen.cfg_with(files=(1, 3), wsdl=True, quarantine=q, headers=(1, 3), p_parts_attr=0.3, complex_per_file=(0, 1),
+                                      simple_per_file=(0, 2), elements_per_file=(0, 1), ops=(1, 3), attr_named_simple=False)),
+    ]
+
+
+WSDL_RULES = {
+    "C05": "generated document/literal WSDLs (1-4 operations, all name styles and keywords, one-/two-way, 0-3 header parts per direction, "
+           "with/without parts=, part names equal to or different from element names, elements in inline or imported namespaces); the "
+           "client is discovered from the emitted text (syn), request envelopes are built from abstract samples, serialized and compared as "
+           "infosets with the independently constructed SOAP 1.1 envelope, every operation is called against a loopback listener at the "
+           "WSDL's own address and the returned value's Debug is compared with the expected response value. Non-trivial = programs with "
+           ">= 1 operation run; distinct = structural fingerprint",
+    "C16": "per generated client and operation the complete scenario table is run against the scripted loopback listener: statuses 200/201/204/"
+           "400/401/403/404/500/503 x bodies {exact envelope in 5 prefix styles, empty, non-XML, non-envelope XML, SOAP fault, wrong body "
+           "element, 5 truncations} x transport faults {closed before headers, closed after the request, body shorter than Content-Length} x "
+           "credentials {absent, ascii, with ':' and empty password, non-ASCII}; plus 32 concurrent calls. The listener logs each request "
+           "before replying; expected: one POST with the exact serialized envelope and the exact Basic header; a value iff 2xx and the body "
+           "is the envelope. Non-trivial = programs with >= 1 operation run",
+    "C18": "for every operation of generated clients the driver contains assert_send(&future) for the service method and the free-standing "
+           "function, assert_send_sync::<Envelope>() for request and response types, and runs each call through tokio::spawn on a 2-worker "
+           "multi-thread runtime; rustc's E0277 on those lines and non-completing spawns are violations",
+}
+
+
 def all_cfgs(q):
-    return core_cfgs(q)
+    return core_cfgs(q) + wsdl_cfgs(q)[1:]
 
 
 def run(prop, tier):
@@ -499,6 +538,15 @@ def run(prop, tier):
             "mapping; (b) typed probe: one struct literal per expected struct, each member initialised through is::<ExpectedType>(..), "
             "compiled with rustc — E0308 on a member's line is a type deviation. Non-trivial = programs with >= 1 struct compared"),
             nontrivial=lambda p: p.stats.get("structs_compared", 0) > 0)
+    elif prop in ("C05", "C16", "C18"):
+        from . import engine_w
+        sigf = {"C05": sig_c05, "C16": sig_c16, "C18": sig_c18}[prop]
+        full = prop != "C18"
+        cfgs = wsdl_cfgs(q)
+        nq, nt = {"C05": (16, 400), "C16": (8, 120), "C18": (16, 400)}[prop]
+        check_generic(prop, tier, cfgs, nq, nt, sigf, ["static", "probe", lambda p: engine_w.stage_wsdl(p, full_matrix=full)],
+                      level="fault_enumeration" if prop == "C16" else "exploration", rule=WSDL_RULES[prop],
+                      nontrivial=lambda p: p.stats.get("operations_run", 0) > 0, min_eval=4)
     elif prop in ("C03", "C04"):
         sigf = sig_c03 if prop == "C03" else sig_c04
         check_generic(prop, tier, core_cfgs(q)[:3], 24, 600, sigf, ["static", "probe", stage_runtime], rule=(
@@ -767,4 +815,74 @@ def sig_c04(f):
         return "C04|fixpoint-differs"
     if r in ("runtime-hang", "runtime-crash"):
         return f"C04|{r}"
+    return None
+
+
+def _origin(d):
+    o = d.get("origin")
+    return "/".join(str(x) for x in o) if isinstance(o, (list, tuple)) else str(o)
+
+
+def sig_c05(f):
+    r = f["rule"]
+    if r in ("client-missing", "service-name", "address"):
+        return f"C05|{r}"
+    if r == "method-set":
+        return f"C05|method-set|kind={f['kind']}"
+    if r == "method-signature":
+        return "C05|method-signature"
+    if r == "response-type":
+        return f"C05|response-type|oneway={f['oneway']}"
+    if r == "envelope-shape":
+        return f"C05|envelope-shape|direction={f['direction']}|what={f['what'][:60]}"
+    if r == "envelope-ser-error":
+        return "C05|envelope-ser-error"
+    if r == "envelope":
+        d = f["diff"]
+        path = d.get("path", "")
+        part = "header" if "/Header" in path else ("body" if "/Body" in path else "envelope")
+        depth = path.count("/")
+        where = "part-element" if depth <= 3 else "inside-part"
+        return f"C05|envelope|part={part}|where={where}|what={d['kind']}|parts-attr={f['parts_attr']}"
+    if r == "response-value":
+        return "C05|response-value"
+    if r == "error-for-success" and f["scenario"].startswith("ok-exact"):
+        return f"C05|call-failed|kind={f.get('kind')}"
+    return None
+
+
+def sig_c16(f):
+    r = f["rule"]
+    if r == "request-count":
+        return f"C16|requests|scenario-class={_scen_class(f)}|{'accepts' if 'accepted' in f.get('what', '') else 'logged'}"
+    if r == "http-method":
+        return "C16|method"
+    if r == "body-mismatch":
+        return "C16|body-mismatch"
+    if r == "auth":
+        return f"C16|auth|configured={f['configured']}"
+    if r == "value-for-failure":
+        return f"C16|value-for-failure|scenario={f['scenario']}"
+    if r == "error-for-success":
+        return f"C16|error-for-success|scenario={f['scenario']}|kind={f.get('kind')}"
+    if r in ("call-did-not-complete", "runtime-hang", "runtime-crash"):
+        return f"C16|{r}"
+    return None
+
+
+def _scen_class(f):
+    s = f.get("scenario", "")
+    if s.startswith("ok") or s.startswith("20"):
+        return "2xx"
+    if s[:1] in "45":
+        return "4xx-5xx"
+    return s
+
+
+def sig_c18(f):
+    r = f["rule"]
+    if r == "not-send":
+        return f"C18|not-send|what={f['what']}|because={f.get('because') or '?'}"
+    if r in ("call-did-not-complete", "runtime-hang"):
+        return f"C18|{r}"
     return None
